@@ -212,54 +212,14 @@ def d5_6(ctx):
     ctx.check(ok and tile, ckey(lx.key + "._parse_template_data", "member-chunks"), ptd, "member records are member_count consecutive 8-byte chunks", "member info is not tiled into member_count chunks of TEMPLATE_MEMBER_INFO_LEN bytes")
 
 
-@rule(P, "D5.7", "T-DOM", floor=3)
+@rule(P, "D5.7", "T-WITNESS", floor=3)
 def d5_7(ctx):
-    """Hidden members are private and never listed as attributes; LEN/DATA structures are strings of capacity structure_size - 4."""
-    lx = _lx(ctx)
-    fn = lx.methods["_parse_template_data"]
-    cls_if = [n for n in walk(fn) if isinstance(n, ast.If) and any(isinstance(c, ast.Call) and attr_path(c.func) == "_private_members.add" for s in n.body for c in walk(s))]
-    ok = False
-    if len(cls_if) == 1:
-        i = cls_if[0]
-        parts = i.test.values if isinstance(i.test, ast.BoolOp) and isinstance(i.test.op, ast.Or) else [i.test]
-        txt = sorted(src(p).replace(" ", "").replace('"', "'") for p in parts)
-        want = sorted(["member.startswith('ZZZZZZZZZZ')", "member.startswith('__')", "predefineandmemberin{'CTL','Control'}"])
-        want2 = sorted(["member.startswith('ZZZZZZZZZZ')", "member.startswith('__')", "predefineandmemberin{'Control','CTL'}"])
-        vis = [c for s in i.orelse for c in walk(s) if isinstance(c, ast.Call) and src(c.func).replace('"', "'") == "data_type['attributes'].append" and atom_name(c.args[0]) == "member"]
-        vis_all = [c for c in walk(fn) if isinstance(c, ast.Call) and src(c.func).replace('"', "'") == "data_type['attributes'].append"]
-        ok = txt in (want, want2) and len(vis) == 1 and len(vis_all) == 1
-    ctx.check(ok, ckey(lx.key + "._parse_template_data", "private"), cls_if[0] if cls_if else fn, "ZZZZZZZZZZ*/__*/predefined CTL|Control are private; only other members become attributes", "the private/visible member classification changed (host members would show up, or visible members hidden)")
-    unk = any(isinstance(n, ast.If) and src(n.test).replace(" ", "") == "notmember" and any(isinstance(s, ast.Assign) and atom_name(s.targets[0]) == "member" and isinstance(s.value, ast.JoinedStr) and src(s.value).startswith("f'__unknown") for s in n.body) for n in walk(fn))
-    ctx.check(unk, ckey(lx.key + "._parse_template_data", "unnamed"), fn, "unnamed members get a private placeholder name", "unnamed members are no longer given a private name")
-    st = [n for n in walk(fn) if isinstance(n, ast.If) and any(isinstance(c, ast.Call) and call_name(c) == "FixedSizeString" for s in n.body for c in walk(s))]
-    ok = False
-    if len(st) == 1:
-        i = st[0]
-        parts = [src(p).replace(" ", "").replace('"', "'") for p in (i.test.values if isinstance(i.test, ast.BoolOp) else [i.test])]
-        cap = [c for s in i.body for c in walk(s) if isinstance(c, ast.Call) and call_name(c) == "FixedSizeString"]
-        L = lin(cap[0].args[0]) if cap else None
-        key = [k for k in (L.terms if L else {})]
-        dint = ctx.folder.class_attr(ctx.model.cls("pycomm3.cip.data_types:DINT"), "size")
-        cap_ok = L is not None and len(key) == 1 and "structure_size" in key[0] and L.terms[key[0]] == 1 and L.const == -dint
-        lt = ctx.folder.class_attr(ctx.model.cls(f"{CT}:FixedSizeString.FixedSizeString"), "len_type")
-        lt_ok = isinstance(lt, ClassRef) and ctx.folder.class_attr(lt.ci, "size") == dint
-        ok = parts == ["data_type['attributes']==['LEN','DATA']", "data_type['internal_tags']['DATA']['data_type_name']=='SINT'", "data_type['internal_tags']['DATA'].get('array')"] and cap_ok and lt_ok
-        els = [c for s in i.orelse for c in walk(s) if isinstance(c, ast.Call) and call_name(c) == "StructTag"]
-        ok = ok and len(els) == 1
-        if els:
-            kw = {k.arg: src(k.value).replace('"', "'") for k in els[0].keywords}
-            ok = ok and kw == {"bit_members": "_bit_members", "struct_size": "template['structure_size']", "private_members": "_private_members"} and isinstance(els[0].args[0], ast.Starred) and atom_name(els[0].args[0].value) == "_struct_members"
-    ctx.check(ok, ckey(lx.key + "._parse_template_data", "string-detection"), st[0] if st else fn, "[LEN, DATA] with SINT array DATA is a string of capacity structure_size - 4; everything else a StructTag of the template's size", "string detection / capacity (structure size minus the 4-byte length) or StructTag construction changed")
-    mem = [n for n in walk(fn) if isinstance(n, ast.If) and "'bit'ininfo" in src(n.test).replace(" ", "").replace('"', "'")]
-    ok = False
-    if len(mem) == 1:
-        b = mem[0]
-        bitm = any(isinstance(s, ast.Assign) and src(s.targets[0]) == "_bit_members[member]" and src(s.value).replace('"', "'").replace(" ", "") == "(info['offset'],info['bit'])" for s in b.body)
-        strm = any(isinstance(c, ast.Call) and attr_path(c.func) == "_struct_members.append" and src(c.args[0]).replace('"', "'").replace(" ", "") == "(info['type_class'](member),info['offset'])" for s in b.orelse for c in walk(s))
-        ok = bitm and strm
-    ctx.check(ok, ckey(lx.key + "._parse_template_data", "members"), mem[0] if mem else fn, "BOOL members -> (offset, bit); other members -> (type(name), offset)", "member placement records (offset / bit) changed")
-    z = [n for n in walk(fn) if isinstance(n, ast.For) and isinstance(n.iter, ast.Call) and call_name(n.iter) == "zip" and [atom_name(a) for a in n.iter.args] == ["member_names", "member_data"]]
-    ctx.check(len(z) == 1, ckey(lx.key + "._parse_template_data", "name-info-pairing"), fn, "member names are paired positionally with member records", "member names are no longer paired positionally with their records")
+    """Hidden members (ZZZZZZZZZZ*, __*, unnamed, predefined CTL / Control) are private and never listed as attributes; BOOL
+    members become (offset, bit) aliases and the others (type(name), offset); names pair positionally with member records;
+    [LEN, DATA(SINT array)] structures are strings of capacity structure_size - 4, everything else a StructTag of the template's
+    size.  Decided by folding `_parse_template_data` on witness templates (D5.13); an earlier form compared the source text of the
+    classification test and alarmed on `startswith((a, b))`."""
+    d5_13(ctx)
 
 
 @rule(P, "D5.8", "T-KEYS", floor=2)
@@ -512,7 +472,7 @@ def d5_12(ctx):
         return UNKNOWN
 
     for program in (None, "MainProgram"):
-        me = Obj(_info={"programs": {"MainProgram": {"instance_id": 10, "routines": []}} if program else {}, "tasks": {}, "modules": {}}, _cache={"tag_name:id": {}})
+        me = witness_instance(lx, _info={"programs": {"MainProgram": {"instance_id": 10, "routines": []}} if program else {}, "tasks": {}, "modules": {}}, _cache={"tag_name:id": {}})
         kind, res = run_function(ctx, lx.module, fn, {"self": me, fn.args.args[1].arg: [dict(s) for s in symbols], fn.args.args[2].arg: program}, call_hook=hook, deep=False)
         key = ckey(lx.key + "._isolate_user_tags", f"witness:program={program}")
         if kind == "unknown":
